@@ -17,6 +17,7 @@ func run(c *core.Ctx) {
 	c.Assume("the classad library's full parser (parser.ParseExpr) is the oracle for the value of a rendered text; the statement of C08 defines correctness that way; a text it rejects is outside the statement")
 	c.Assume("a lone '-' directly applied to a numeric literal is the same typed value as the negative literal (semantic comparison)")
 	c.Assume("the skipping receiver on a marker + secret item (keyed, non-encrypting stream, IncludePrivate) is outside the statement (DESIGN section 7 observation); measured and reported as an observation only")
+	c.Assume("the size-limited receiver GetClassAdWithMaxSize may refuse an ad with a clean error for any byte budget except 0 (documented as unlimited) and a budget of at least the whole message; whenever it returns success it is the parsing receiver of the statement: same ad, same type names, same consumption")
 	if c.Replay != "" {
 		sc, kind, ok := adwire.ReadReplay(c)
 		if !ok {
@@ -97,5 +98,5 @@ func run(c *core.Ctx) {
 	t := adwire.RunScenarios(c, scs)
 	t.Publish(c, "wire_")
 	c.Set("exhaustive", true)
-	c.Set("rule", "cases = (a) every token sequence over the 15-token literal alphabet up to the tier's length, enumerated by TLC with its predicted grammar class and fast-path branch, each sent as `A = <text>` through PutClassAdRaw -> real stream -> GetClassAd in two concretisations (canonical on a plain stream, seeded on an encrypting stream) and compared with the full parser; (b) every ad shape of Gen_ClassAdWire (0..3 attributes public/private x option word x stream state x type names x cut plan; plus the ServerTime dimension: option on/off x the ad carries its own ServerTime attribute in lower/upper/mixed case or not) carrying the values of the grammar pool (all productions to depth 1, depth 2 over every depth-1 expression, all strings over a 15-character set to the tier's length, seeded deeper nesting), sent by every sender API (PutClassAdRawBytes with all expressions in one shared scratch buffer passed as sub-slices, the buffer compared afterwards), decoded from the sender's framing and from reference re-framings by GetClassAd / GetClassAdWithMaxSize / GetClassAdRaw / SkipClassAdRaw; distinct = distinct scenario; non-trivial = the parser assigns the text an expression (a) / the ad has an attribute (b)")
+	c.Set("rule", "cases = (a) every token sequence over the 15-token literal alphabet up to the tier's length, enumerated by TLC with its predicted grammar class and fast-path branch, each sent as `A = <text>` through PutClassAdRaw -> real stream -> GetClassAd in two concretisations (canonical on a plain stream, seeded on an encrypting stream) and compared with the full parser; (b) every ad shape of Gen_ClassAdWire (0..3 attributes public/private x option word x stream state x type names x cut plan; plus the ServerTime dimension: option on/off x the ad carries its own ServerTime attribute in lower/upper/mixed case or not) carrying the values of the grammar pool (all productions to depth 1, depth 2 over every depth-1 expression, all strings over a 15-character set to the tier's length, seeded deeper nesting), sent by every sender API (PutClassAdRawBytes with all expressions in one shared scratch buffer passed as sub-slices, the buffer compared afterwards), decoded from the sender's framing and from reference re-framings by GetClassAd / GetClassAdWithMaxSize / GetClassAdRaw / SkipClassAdRaw, and by GetClassAdWithMaxSize under every byte budget from 0 to past the message (every shape x sender once; field boundaries +-1 on the repetitions): a clean error or exactly the unlimited result; distinct = distinct scenario; non-trivial = the parser assigns the text an expression (a) / the ad has an attribute (b)")
 }
